@@ -801,6 +801,12 @@ def _arg_combine(data, axis, argfunc, keepdims=False):
 
 
 def arg_chunk(func, argfunc, x, axis, offset_info):
+    if x.size == 0 and (empty := _empty_along(x, axis)) is not None:
+        # A block that is empty along a reduced axis has no candidate: its
+        # (empty) partial result is ignored when the partials are concatenated
+        return np.empty(
+            empty.shape, dtype=[("vals", x.dtype), ("arg", np.argmin([1]).dtype)]
+        )
     arg_axis = None if len(axis) == x.ndim or x.ndim == 1 else axis[0]
     vals = func(x, axis=arg_axis, keepdims=True)
     arg = argfunc(x, axis=arg_axis, keepdims=True)
@@ -834,6 +840,12 @@ def arg_chunk(func, argfunc, x, axis, offset_info):
 
 
 def arg_combine(argfunc, data, axis=None, **kwargs):
+    if not isinstance(data, dict) and data.size == 0:
+        # only empty partial results in this group: nothing to choose from
+        return np.empty(
+            tuple(builtins.min(s, 1) if i in axis else s for i, s in enumerate(data.shape)),
+            dtype=data.dtype,
+        )
     arg, vals = _arg_combine(data, axis, argfunc, keepdims=True)
 
     try:
